@@ -61,7 +61,7 @@ claim('C03', 'other',
       'DESIGN.md 3.E, 4/C03')
 claim('C08', 'other',
       'decision-ladder normalisation of every query __eq__ to a rejection DNF over canonical predicates compared with the '
-      'documented semantics table; primitive-letter plumbing; constructor keyword coverage; guard ladders of the constraint normalisers evaluated '
+      'documented semantics table; abstract execution of the hybridisation ladder of calc_labels; primitive-letter plumbing; constructor keyword coverage; guard ladders of the constraint normalisers evaluated '
       'over finite sample domains; neighbour-class partition of calc_labels; reader exception discipline on the smarts() path',
       'decides: each of QueryElement/AnyElement/ListElement/AnyMetal/QueryBond rejects exactly under the documented '
       'conditions (robust to re-ordering/re-nesting), every SMARTS primitive letter lands in the attribute its documentation '
@@ -82,7 +82,7 @@ claim('C01', 'other',
       'trusts: allow-list of integer attributes; exemption table of the mutator protocol',
       'DESIGN.md 4/C01')
 claim('C17', 'other',
-      'syntactic rules: fold-mask form of every inserted bit index, order-insensitive aggregation before hashing, '
+      'guards of the path growth evaluated over a (size, min, max) grid; layer count of the Morgan refinement; syntactic rules: fold-mask form of every inserted bit index, order-insensitive aggregation before hashing, '
       'int-only identifier tuples without atom numbers, reverse-canonical fragment keys',
       'decides: folded indices are < length by construction (x & (length-1)), the number of insertions follows '
       'number_active_bits, neighbourhood hashes sort their neighbour tuples, identifiers contain no atom number, '
@@ -110,7 +110,7 @@ claim('C04', 'other',
       'radical totals read hydrogens of all atoms; check_valence reports exactly None counts; every edit records the atoms whose environment changed in '
       'the pending set (only ever extended) and every mutator reaches the recalculation. That the tabulated valences '
       'are chemically right is NOT decided.',
-      'trusts: the aromatic carbon table (2 aromatic bonds use 3 valence units, 3 use 4)',
+      'trusts: the aromatic carbon table (2 aromatic bonds use 3 valence units, 3 use 4); parity rule of p-block valences with its frozen exception rows',
       'DESIGN.md 4/C04')
 claim('C02', 'other',
       'writer<->reader code-book agreement by literal-table extraction, regex-language enumeration and decision-ladder '
